@@ -2,7 +2,7 @@ use std::io::Read;
 use std::collections::{HashSet, VecDeque};
 
 use crate::spec_util::validate_tag_path;
-use crate::tag_iterator_util::EBMLSize::{Known, Unknown};
+use crate::tag_iterator_util::EBMLSize::Known;
 use crate::tag_iterator_util::{DEFAULT_BUFFER_LEN, EBMLSize, ProcessingTag, AllowableErrors};
 
 use super::tools;
@@ -446,16 +446,9 @@ impl<R: Read, TSpec> TagIterator<R, TSpec>
 
         if let Some(next_read) = self.read_tag_checked() {
             if let Ok(next_tag) = &next_read {
-                while matches!(self.tag_stack.last(), Some(open_tag) if open_tag.size == Unknown) {
-                    let open_tag = self.tag_stack.last().unwrap();
-                    let previous_tag_ended = open_tag.is_ended_by(next_tag.tag.get_id());
-        
-                    if previous_tag_ended {
-                        let t = self.tag_stack.pop().unwrap();
-                        self.emission_queue.push_back(Ok((t.tag, t.tag_start)));
-                    } else {
-                        break;
-                    }
+                // An element that ends an "Unknown" sized master also ends every master that is open within it
+                if let Some(index) = self.ended_masters_start(next_tag.tag.get_id()) {
+                    self.emission_queue.extend(self.tag_stack.drain(index..).map(|t| Ok((t.tag, t.tag_start))).rev());
                 }
 
                 if let Some(Master::Start) = next_tag.tag.as_master() {
@@ -542,9 +535,22 @@ impl<R: Read, TSpec> TagIterator<R, TSpec>
         TSpec::get_master_tag(tag_id, Master::Full(rolled_children)).unwrap_or_else(|| panic!("Bad specification implementation: Tag id 0x{:x?} type was master, but could not get tag!", tag_id))
     }
 
+    ///
+    /// Returns the index (in the tag stack) of the outermost open "Unknown" sized master that is ended by `tag_id`, if any.
+    ///
+    /// Only masters that have no "Known" sized master open within them can be ended by a following element.  All masters from the returned index onwards end when `tag_id` is encountered.
+    ///
+    #[inline(always)]
+    fn ended_masters_start(&self, tag_id: u64) -> Option<usize> {
+        let first_candidate = self.tag_stack.iter().rposition(|t| t.size.is_known()).map_or(0, |index| index + 1);
+        (first_candidate..self.tag_stack.len()).find(|&index| self.tag_stack[index].is_ended_by(tag_id))
+    }
+
     #[inline(always)]
     fn validate_tag_path(&self, tag_id: u64) -> bool {
-        validate_tag_path::<TSpec>(tag_id, self.tag_stack.iter().map(|p| (p.tag.get_id(), p.size, 0)))
+        // Any "Unknown" sized masters that are ended by this tag are not part of its path
+        let open_masters = self.ended_masters_start(tag_id).unwrap_or(self.tag_stack.len());
+        validate_tag_path::<TSpec>(tag_id, self.tag_stack[..open_masters].iter().map(|p| (p.tag.get_id(), p.size, 0)))
     }
 
     #[inline(always)]
